@@ -1,4 +1,5 @@
 import TrionModel.Lemmas.C06Stmt
+import TrionModel.Lemmas.C06Last
 import TrionModel.Props.C04Any
 /-!
 # C06, third clause — invalid constructs are reported as diagnostics (whole-pipeline model `Asm.run`)
@@ -59,12 +60,10 @@ theorem At.snoc {fs : Bytes → Option Bytes} {main : Bytes} {e el : Element} {S
 /-- the state after `.addr A;` and definitions that build `tbl` -/
 def stateAt (A : Nat) (tbl : Asm.Table) : Asm.St := ⟨⟨[], some ⟨A, [], Map.u32Max - A + 1⟩, []⟩, [], some tbl, [], some [], []⟩
 
-theorem at_addr_defs {fs : Bytes → Option Bytes} {main data : Bytes} (hfs : fs main = some data) {els : List Element}
-    {perr : Option ParseErr} (hp : Asm.parseFile data = .ok (els, perr)) (A : Nat) (hA : A < 4294967296)
-    (defs : List (Bytes × Arg)) (tbl : Asm.Table) (hdefs : defsTable defs [] = some tbl)
-    {pre post : List Element} {el : Element} (hels : els = pre ++ el :: post)
+theorem prefixOk_addr_defs (fs : Bytes → Option Bytes) (main : Bytes) (A : Nat) (hA : A < 4294967296)
+    (defs : List (Bytes × Arg)) (tbl : Asm.Table) (hdefs : defsTable defs [] = some tbl) {pre : List Element}
     (hpre : pre.map (·.val) = .directive (bytesOf "addr") (Args.ofList [.const A]) :: defs.map constStmt) :
-    At fs main el (stateAt A tbl) ∧ Asm.Table.NoDef tbl := by
+    PrefixOk fs main pre (stateAt A tbl) ∧ Asm.Table.NoDef tbl ∧ tblI64 tbl := by
   obtain ⟨e1, mid, rfl, h1, hmid⟩ := List.map_eq_cons_iff.mp hpre
   obtain ⟨l1, c1, v1⟩ := e1
   simp only at h1
@@ -78,10 +77,19 @@ theorem at_addr_defs {fs : Bytes → Option Bytes} {main data : Bytes} (hfs : fs
   have hnd0 : Asm.Table.NoDef [] := by intro n; simp [Asm.Table.find]
   have hd := fun rest perr' => doAssemble_defs fs Asm.encoder (incOf fs) (envOf main) (by simp) defs mid rest perr'
     ⟨⟨[], some ⟨A, [], Map.u32Max - A + 1⟩, []⟩, [], some [], [], some [], []⟩ [] tbl hmid rfl hnd0 hdefs
-  refine ⟨⟨data, els, perr, _, post, hfs, hp, hels, ?_, ⟨rfl, rfl, rfl⟩⟩, (hd [] none).2⟩
+  refine ⟨?_, (hd [] none).2, defsTable_i64 defs [] tbl (by intro n v h; simp [Asm.Table.find] at h) hdefs⟩
   intro rest perr'
   simp only [List.cons_append, Asm.doAssemble, haddr]
   exact (hd rest perr').1
+
+theorem at_addr_defs {fs : Bytes → Option Bytes} {main data : Bytes} (hfs : fs main = some data) {els : List Element}
+    {perr : Option ParseErr} (hp : Asm.parseFile data = .ok (els, perr)) (A : Nat) (hA : A < 4294967296)
+    (defs : List (Bytes × Arg)) (tbl : Asm.Table) (hdefs : defsTable defs [] = some tbl)
+    {pre post : List Element} {el : Element} (hels : els = pre ++ el :: post)
+    (hpre : pre.map (·.val) = .directive (bytesOf "addr") (Args.ofList [.const A]) :: defs.map constStmt) :
+    At fs main el (stateAt A tbl) ∧ Asm.Table.NoDef tbl :=
+  ⟨⟨data, els, perr, pre, post, hfs, hp, hels, (prefixOk_addr_defs fs main A hA defs tbl hdefs hpre).1, ⟨rfl, rfl, rfl⟩⟩,
+   (prefixOk_addr_defs fs main A hA defs tbl hdefs hpre).2.1⟩
 
 section
 variable {fs : Bytes → Option Bytes} {main : Bytes} {S : Asm.St} {l c : Nat}
@@ -282,5 +290,129 @@ theorem invalid_align_inactive {args : Args} (hact : S.seg.active = none) (h : A
   reported_of h (by simp only [Asm.statement]; rw [C04.directive_align]; exact align_inactive _ S l c _ hact)
 
 end
+
+/-! ## the placeholder-and-retry path (`…_partial`: the statement is the LAST statement of the main file)
+
+Instruction statements and `.du8/.du16/.du32` record their diagnostic, still write a placeholder, queue a retry and return
+`Ok`; the retry runs at the end of the file.  Conclusion (`ReportedAt`): not a success, at least one diagnostic, and EVERY
+diagnostic at the statement (the retry may report a second time).  Restriction: no statement follows (`AtLast`).  Missing
+for the full clause: an undefined name used by an instruction or a data statement (it is reported only by the retry; needs
+the `local = true → false` replay of the deferred first attempt). -/
+
+def AtLast (fs : Bytes → Option Bytes) (main : Bytes) (el : Element) (S : Asm.St) : Prop :=
+  ∃ data pre, fs main = some data ∧ Asm.parseFile data = .ok (pre ++ [el], none) ∧ PrefixOk fs main pre S ∧ QuietSt S
+
+def ReportedAt (fs : Bytes → Option Bytes) (main : Bytes) (el : Element) : Prop :=
+  ∃ o, Asm.run fs main = .done o ∧ o.success = false ∧ o.diags ≠ [] ∧
+    ∀ d ∈ o.diags, d.file = main ∧ d.line = el.line ∧ d.col = el.col
+
+theorem atLast_addr_defs {fs : Bytes → Option Bytes} {main data : Bytes} (hfs : fs main = some data) {pre : List Element}
+    {el : Element} (hp : Asm.parseFile data = .ok (pre ++ [el], none)) (A : Nat) (hA : A < 4294967296)
+    (defs : List (Bytes × Arg)) (tbl : Asm.Table) (hdefs : defsTable defs [] = some tbl)
+    (hpre : pre.map (·.val) = .directive (bytesOf "addr") (Args.ofList [.const A]) :: defs.map constStmt) :
+    AtLast fs main el (stateAt A tbl) :=
+  ⟨data, pre, hfs, hp, (prefixOk_addr_defs fs main A hA defs tbl hdefs hpre).1, ⟨rfl, rfl, rfl⟩⟩
+
+/-- C06i.p0  an instruction statement (known mnemonic) that the front end does not complete to an encodable instruction -/
+theorem invalid_instruction_of_partial {fs : Bytes → Option Bytes} {main : Bytes} {S : Asm.St} {l c : Nat}
+    {tbl : Asm.Table} (hl : S.locals = some tbl) (hnd : Asm.Table.NoDef tbl) (hi64 : tblI64 tbl)
+    {map : Map.Segs} {seg : Seg.Active} {pending : List (Nat × Nat)} (hs : S.seg = ⟨map, some seg, pending⟩)
+    {name : Bytes} {args : Args} {t : Instr} (hm : mnemonic name = some t)
+    (htot : (∃ i, build seg.cur name args.toList (Asm.frontEval tbl) true = .completed i) ∨
+      (∃ d st, build seg.cur name args.toList (Asm.frontEval tbl) true = .error d st))
+    (henc0 : ∀ i hws, build seg.cur name args.toList (Asm.frontEval tbl) true = .completed i → Codec.encode i ≠ .ok hws)
+    (h : AtLast fs main ⟨l, c, .instruction name args⟩ S) : ReportedAt fs main ⟨l, c, .instruction name args⟩ := by
+  obtain ⟨data, pre, hfs, hp, hpre, hq⟩ := h
+  have hst : Asm.statement fs Asm.encoder (incOf fs) (envOf main) S ⟨l, c, .instruction name args⟩ =
+      Asm.instruction Asm.encoder (envOf main) S l c name args.toList := by simp [Asm.statement, hs]
+  refine run_last_diag fs main data hfs pre _ hp S hpre (by rw [hst]; exact Asm.instruction_nf _ _ _ _ _ _ _) ?_
+  intro S1 r1 hX
+  rw [hst] at hX
+  refine ⟨pat_of_eff (pat_quiet hq _ _ _) (Asm.instruction_eff (env := envOf main) _ _ hX) (Asm.instruction_quiet _ _ hX), .inl ?_⟩
+  have := instr_diag_of (envOf main) S tbl hnd hi64 (by simp) hl map seg pending hs l c name args.toList t hm htot henc0 S1 r1 hX
+  omega
+
+/-- C06i.p1  **wrong operand count, instructions** (`TooManyArguments` / `NotEnoughArguments`), any operands -/
+theorem invalid_instruction_count_partial {fs : Bytes → Option Bytes} {main : Bytes} {S : Asm.St} {l c : Nat}
+    {tbl : Asm.Table} (hl : S.locals = some tbl) (hnd : Asm.Table.NoDef tbl) (hi64 : tblI64 tbl)
+    {map : Map.Segs} {seg : Seg.Active} {pending : List (Nat × Nat)} (hs : S.seg = ⟨map, some seg, pending⟩)
+    {name : Bytes} {args : Args} {t : Instr} (hm : mnemonic name = some t) (hn : args.toList.length ≠ (kinds t).length)
+    (h : AtLast fs main ⟨l, c, .instruction name args⟩ S) : ReportedAt fs main ⟨l, c, .instruction name args⟩ := by
+  have hb := arity_rejected_proof seg.cur name args.toList (Asm.frontEval tbl) true t hm hn
+  exact invalid_instruction_of_partial hl hnd hi64 hs hm (.inr ⟨_, _, hb⟩) (fun i hws hc => by rw [hb] at hc; cases hc) h
+
+/-- C06i.p2  **wrong operand kind / out-of-range or misaligned value / overflow, instructions**: operands of the documented
+forms over defined names, and no encodable meaning (`C04.means`) -/
+theorem invalid_instruction_partial {fs : Bytes → Option Bytes} {main : Bytes} {S : Asm.St} {l c : Nat}
+    {tbl : Asm.Table} (hl : S.locals = some tbl) (hnd : Asm.Table.NoDef tbl) (hi64 : tblI64 tbl)
+    {map : Map.Segs} {seg : Seg.Active} {pending : List (Nat × Nat)} (hs : S.seg = ⟨map, some seg, pending⟩)
+    {name : Bytes} {args : Args} {t : Instr} (hm : mnemonic name = some t)
+    (hw : wellFormed (tabOf tbl) (sig t) args.toList)
+    (hq : ∀ vs, denoteAll (tabOf tbl) (sig t) args.toList = some vs → ¬ svQuirk t vs)
+    (hno : ∀ i hws, ¬ (means (tabOf tbl) seg.cur name args.toList = some i ∧ i.wf ∧ Codec.encode i = .ok hws))
+    (h : AtLast fs main ⟨l, c, .instruction name args⟩ S) : ReportedAt fs main ⟨l, c, .instruction name args⟩ := by
+  have hn := Asm.Table.nodef_get hnd
+  have hTk := tableOk_of_tblI64 hi64
+  have hE := evalSimp_frontEval tbl
+  exact invalid_instruction_of_partial hl hnd hi64 hs hm (stmt_total hn hTk hE true seg.cur name args.toList t hm hw)
+    (fun i hws hb he => hno i hws ((stmt_iff hn hTk hE true seg.cur name args.toList t hm hw hq i hws).1 ⟨hb, he⟩)) h
+
+/-- C06i.p3  **`.du8 / .du16 / .du32` with a value outside the type, or with a string** -/
+theorem invalid_du_partial {fs : Bytes → Option Bytes} {main : Bytes} {S : Asm.St} {l c : Nat}
+    {tbl : Asm.Table} (hl : S.locals = some tbl) (hnd : Asm.Table.NoDef tbl) (hact : S.seg.active.isSome = true)
+    (du : Asm.DU) (dn : Bytes) (hdn : dn = bytesOf du.name) {b : Arg}
+    (hb : (∃ v, value (tabOf tbl) b = some v ∧ ¬ (0 ≤ v ∧ v ≤ du.max)) ∨ (∃ s, b = .str s))
+    (h : AtLast fs main ⟨l, c, .directive dn (Args.ofList [b])⟩ S) :
+    ReportedAt fs main ⟨l, c, .directive dn (Args.ofList [b])⟩ := by
+  obtain ⟨data, pre, hfs, hp, hpre, hq⟩ := h
+  have hst : Asm.statement fs Asm.encoder (incOf fs) (envOf main) S ⟨l, c, .directive dn (Args.ofList [b])⟩ =
+      Asm.duDirective du (envOf main) S l c [b] := by
+    subst hdn
+    simp only [Asm.statement, Show.toList_ofList]
+    cases du
+    · exact C04.directive_du8 ..
+    · exact C04.directive_du16 ..
+    · exact C04.directive_du32 ..
+  refine run_last_diag fs main data hfs pre _ hp S hpre (by rw [hst]; exact Asm.duDirective_nf _ _ _ _ _ _) ?_
+  intro S1 r1 hX
+  rw [hst] at hX
+  refine ⟨pat_of_eff (pat_quiet hq _ _ _) (Asm.duDirective_eff (env := envOf main) _ _ hX) (Asm.duDirective_quiet _ _ hX), .inl ?_⟩
+  obtain ⟨a', hev, hbad⟩ : ∃ a', Asm.evalArg (envOf main) S b = .ok (.complete a') ∧ ∀ v, a' = .const v → ¬ (0 ≤ v ∧ v ≤ du.max) := by
+    rcases hb with ⟨v, hv, hr⟩ | ⟨s, rfl⟩
+    · exact ⟨.const v, evalArg_value (envOf main) S tbl (by simp) hl hnd hv, fun w hw => by cases hw; exact hr⟩
+    · exact ⟨.str s, evalArg_str (envOf main) S tbl (by simp) hl s, fun w hw => by cases hw⟩
+  have := du_diag du (envOf main) S l c b a' hact hev hbad S1 r1 hX
+  have h0 : S.errors.length = 0 := by rw [hq.1]; rfl
+  omega
+
+/-! ## non-vacuity -/
+
+/-- the file `.addr 0;⏎FOO R1;`: exactly one diagnostic, `NotFound "FOO"`, at the second statement -/
+example : ∃ el, Reported (fun _ => some (bytesOf ".addr 0;\nFOO R1;")) [] el (.instrNotFound (bytesOf "FOO")) ∧
+    el.val = .instruction (bytesOf "FOO") (Args.ofList [.ident (bytesOf "R1")]) := by
+  have ht : progText 0 [] (bytesOf "FOO") [.ident (bytesOf "R1")] = bytesOf ".addr 0;\nFOO R1;" := by decide
+  obtain ⟨els, hp, hels⟩ := parseFile_progText_partial 0 (by decide) [] (by simp) (bytesOf "FOO") (by decide)
+    [.ident (bytesOf "R1")] (by intro x hx; simp at hx; subst hx; exact .atom (.ident _ (by decide)))
+  rw [ht] at hp
+  simp only [progVals, List.map_nil, List.nil_append] at hels
+  obtain ⟨e1, r1, rfl, h1, hr1⟩ := List.map_eq_cons_iff.mp hels
+  obtain ⟨e2, r2, rfl, h2, hr2⟩ := List.map_eq_cons_iff.mp hr1
+  have : r2 = [] := by simpa using hr2
+  subst this
+  obtain ⟨l2, c2, v2⟩ := e2
+  simp only at h2
+  subst h2
+  refine ⟨⟨l2, c2, .instruction (bytesOf "FOO") (Args.ofList [.ident (bytesOf "R1")])⟩, ?_, rfl⟩
+  have hat := (at_addr_defs (fs := fun _ => some (bytesOf ".addr 0;\nFOO R1;")) (main := []) rfl hp 0 (by decide) [] [] rfl
+    (pre := [e1]) (post := []) (el := ⟨l2, c2, _⟩) rfl (by simp [h1])).1
+  exact invalid_unknown_mnemonic (by decide) (by simp [stateAt]) hat
+
+/-- a register name as a constant name, as the first statement of a file: the statement-level fact behind `invalid_const_register` -/
+example (fs : Bytes → Option Bytes) (main : Bytes) :
+    Asm.statement fs Asm.encoder (incOf fs) (envOf main) init2
+      ⟨1, 1, .directive (bytesOf "const") (Args.ofList [.ident (bytesOf "R0"), .const 1])⟩ =
+    .ok (init2.push (envOf main) 1 1 (.dirApply "const" (.constReserved (bytesOf "R0"))), .err .fatal) := by
+  simp only [Asm.statement, Show.toList_ofList]
+  exact const_reserved fs _ _ init2 [] (by simp) rfl 1 1 (by intro n; simp [Asm.Table.find]) (by decide) (v := 1) (by decide)
 
 end Trion.C06
